@@ -86,6 +86,7 @@ type Op struct {
 	Transport string `json:"transport,omitempty"` // header (default) | header_lower | cookie
 	ExpS      int    `json:"exp_s,omitempty"`     // exp claim, seconds after the start of the run (0: none)
 	NbfS      int    `json:"nbf_s,omitempty"`     // nbf claim, seconds after the start of the run (0: none)
+	IatS      int    `json:"iat_s,omitempty"`     // iat claim, seconds after the start of the run (0: none)
 	PathStyle int    `json:"path_style,omitempty"` // 0: the route as registered; >0: an unusual spelling of its path (see oddPath)
 }
 
@@ -875,6 +876,23 @@ func genAuthOp(g gen, op *Op, scheduled int) {
 		}
 	case "wrong_secret", "alg_none", "hs384", "hs512", "rs256_header":
 		op.ExpS = 10_000_000
+	}
+	// an "issued at" claim near the other two: a little after exp (the token expires while its iat is still slightly
+	// ahead of the server's clock), a little before nbf, or long ago. It never makes an expired or not-yet-valid token valid.
+	switch op.Cred {
+	case "expired", "not_yet_valid", "valid", "valid_window":
+		switch g.n(6) {
+		case 0:
+			if op.ExpS != 0 {
+				op.IatS = op.ExpS + g.oneOf(1, 5, 30, 55)
+			}
+		case 1:
+			if op.NbfS != 0 {
+				op.IatS = op.NbfS - g.oneOf(1, 5, 30)
+			}
+		case 2:
+			op.IatS = -3600
+		}
 	}
 }
 
